@@ -35,9 +35,23 @@ type gatedStore struct {
 	idx             int
 	g               *gate
 	mu              *sync.Mutex
-	calls           *[][3]int // type (0 read, 1 Set, 2 Delete, 3 SetExpiration), key family (0 conn_state, 1 client_conn, 2 other), 0
+	calls           *[][3]int // type (0 read, 1 Set, 2 Delete, 3 SetExpiration, 4 CompareAndSwap), key family (0 conn_state, 1 client_conn, 2 other), 0
 	connPrefix      string
 	clientPrefix    string
+	casOK           bool // the real storage performs CompareAndSwap on client-index keys (else: behave like a storage without CASStore)
+}
+
+// does the real storage perform CompareAndSwap on keys of the client-index family?  (hybrid storage may answer
+// "not implemented"; such a storage is presented to connstate exactly like one that has no CAS at all)
+func storageHasCAS(st storage.Storage, clientPrefix string) bool {
+	cas, ok := st.(storage.CASStore)
+	if !ok {
+		return false
+	}
+	key := clientPrefix + "verif-probe"
+	_, err := cas.CompareAndSwap(key, nil, "x", time.Second)
+	_ = st.Delete(key)
+	return err == nil
 }
 
 func (s *gatedStore) enter(kind int, key string) {
@@ -68,6 +82,24 @@ func (s *gatedStore) SetExpiration(key string, ttl time.Duration) error {
 	return s.Storage.SetExpiration(key, ttl)
 }
 
+// CASStore: ONE gated storage call, handed to the real storage's own atomic implementation (if it has one)
+func (s *gatedStore) CompareAndSwap(key string, oldValue, newValue any, ttl time.Duration) (bool, error) {
+	cas, ok := s.Storage.(storage.CASStore)
+	if !ok || !s.casOK {
+		return false, fmt.Errorf("underlying storage has no CompareAndSwap")
+	}
+	s.enter(4, key)
+	return cas.CompareAndSwap(key, oldValue, newValue, ttl)
+}
+func (s *gatedStore) SetNX(key string, value any, ttl time.Duration) (bool, error) {
+	cas, ok := s.Storage.(storage.CASStore)
+	if !ok {
+		return false, fmt.Errorf("underlying storage has no SetNX")
+	}
+	s.enter(1, key)
+	return cas.SetNX(key, value, ttl)
+}
+
 type concIn struct {
 	Backend string  `json:"backend"`
 	Nodes   int     `json:"nodes"`
@@ -78,7 +110,7 @@ type concIn struct {
 }
 
 type concOut struct {
-	Variant [4]int      `json:"variant"`
+	Variant [5]int      `json:"variant"`
 	Results [][]int     `json:"results"` // per thread: [kind, n, c] for lookups, [] otherwise
 	Calls   [][][3]int  `json:"calls"`   // per thread: the storage calls it issued
 	Sched   []int       `json:"sched"`   // the schedule actually executed (given schedule + completion suffix)
@@ -92,6 +124,9 @@ type concOut struct {
 
 func runConc(c concIn) *concOut {
 	out := &concOut{Variant: variant, PropOK: true}
+	if v, ok := casByBackend[c.Backend]; ok {
+		out.Variant[4] = v
+	}
 	if c.Nodes < 1 {
 		c.Nodes = 2
 	}
@@ -115,7 +150,8 @@ func runConc(c concIn) *concOut {
 		if node < 1 || node > c.Nodes {
 			node = 1
 		}
-		gs := &gatedStore{Storage: w.st[node], idx: i, g: g, mu: &mu, calls: &calls[i], connPrefix: connPrefix, clientPrefix: clientPrefix}
+		gs := &gatedStore{Storage: w.st[node], idx: i, g: g, mu: &mu, calls: &calls[i], connPrefix: connPrefix, clientPrefix: clientPrefix,
+			casOK: storageHasCAS(w.st[node], clientPrefix)}
 		store := connstate.NewStore(gs, nodeName(node), time.Hour)
 		go func(i int, t []int, store *connstate.Store) {
 			defer close(done[i])
@@ -222,7 +258,7 @@ func concPredicate(c concIn, out *concOut) {
 		out.Checked++
 		for _, call := range out.Calls[i] {
 			if call[0] != 0 {
-				what := map[int]string{1: "Set", 2: "Delete", 3: "SetExpiration"}[call[0]]
+				what := map[int]string{1: "Set", 2: "Delete", 3: "SetExpiration", 4: "CompareAndSwap"}[call[0]]
 				fam := map[int]string{0: "tunnox:conn_state:*", 1: "tunnox:client_conn:*", 2: "another key"}[call[1]]
 				fail("lookup-writes-store", fmt.Sprintf("FindClientNode(%d) on node %d issued %s on %s: a lookup in flight while the client moves can destroy the client's registration (schedule %v)",
 					arg(t, 2), arg(t, 1), what, fam, out.Sched))
@@ -294,6 +330,9 @@ func concPredicate(c concIn, out *concOut) {
 					key = "race-refresh-read-set-window"
 				case len(regs[x]) == 1 && kinds[thRefresh] && kinds[thUnreg]:
 					key = "race-unregister-or-refresh-window"
+				}
+				if out.Variant[4] == 1 && key != "race-other" {
+					key += "-despite-cas" // the tree has the atomic index update on this backend: never a known finding
 				}
 				desc := []string{}
 				for _, t := range c.Threads {
